@@ -25,9 +25,9 @@ def t0():
     return T0
 
 
-def mk(T, P):
+def mk(T, P, scale=1):
     import tk
-    return tk.mk_track([p[0] for p in P], [p[1] for p in P], [p[2] for p in P], [t / 2.0 for t in T])
+    return tk.mk_track([p[0] * scale for p in P], [p[1] * scale for p in P], [p[2] for p in P], [t / 2.0 for t in T])
 
 
 def frac(v, maxden):
@@ -40,13 +40,13 @@ def frac(v, maxden):
     return [f.numerator, f.denominator]
 
 
-def rows(tr, maxden):
+def rows(tr, maxden, inv=1):
     out, lat = [], True
     for k in range(tr.size()):
         o = tr.getObs(k)
         ms = (o.timestamp.toAbsTime() - t0()) * 1000.0
         r = [int(round(ms))]
-        for v in (o.position.getX(), o.position.getY(), o.position.getZ()):
+        for v in (o.position.getX() * inv, o.position.getY() * inv, o.position.getZ()):
             f = frac(v, maxden)
             if f is None:
                 lat = False
@@ -95,7 +95,10 @@ def call_temporal(T, P, kind, arg, api):
     return e
 
 
-def call_spatial(T, P, ds2):
+def call_spatial(T, P, ds2, scale=1):
+    """scale = 1/2: the real track is the model's polyline in HALF units (planimetry and step halved - exact -, the answer
+    scaled back): the property does not depend on the unit, and a track with whole East coordinates and half-unit North
+    coordinates has legs of non-integer rational length"""
     e = {"ev": "S", "api": "spatial", "T": list(T), "P": [list(p) for p in P], "kind": "step", "d": ds2, "ref": [], "raised": False, "lat": True, "out": []}
     maxden = 2 * max([1] + [int(round(math.hypot(P[i + 1][0] - P[i][0], P[i + 1][1] - P[i][1]))) for i in range(len(P) - 1)])
     # history variant (every other call with >= 3 fixes): the track was longer, its curvilinear abscissa was computed, and a
@@ -109,13 +112,16 @@ def call_spatial(T, P, ds2):
                 k = 1 + (sum(T) % (len(P) - 1))
                 P2 = list(P[:k]) + [[P[k - 1][0] + 7, P[k - 1][1] - 5, 3]] + list(P[k:])
                 T2 = list(T[:k]) + [(T[k - 1] + T[k]) / 2.0] + list(T[k:])
-                tr = mk(T2, P2)
+                tr = mk(T2, P2, scale)
                 computeAbsCurv(tr)
                 tr.removeObs(k)
             else:
-                tr = mk(T, P)
-            tr.resample(delta=(ds2 // 2 if ds2 % 2 == 0 else ds2 / 2.0), mode=1)
-        e["out"], e["lat"] = rows(tr, maxden)
+                tr = mk(T, P, scale)
+            if scale == 1:
+                tr.resample(delta=(ds2 // 2 if ds2 % 2 == 0 else ds2 / 2.0), mode=1)
+            else:
+                tr.resample(delta=ds2 / 2.0 * scale, mode=1)
+        e["out"], e["lat"] = rows(tr, maxden, 1 if scale == 1 else 1.0 / scale)
     except (Exception, SystemExit) as ex:
         e["raised"] = True
         e["exc"] = repr(ex)[:80]
@@ -195,6 +201,7 @@ def job_family(args):
 
 
 LEGS = [(0, 0), (1, 0), (2, 0), (0, 3), (3, 4), (-4, 3), (0, -1), (6, 8)]
+LEGS_HALF = [(0, 0), (2, 0), (0, 3), (0, 1), (4, 3), (-4, 3), (0, -1), (12, 5), (8, -15)]       # in half units, dx even
 
 
 def job_random(args):
@@ -232,6 +239,15 @@ def job_random(args):
         if L2 > 0:
             ds2 = rnd.choice([1, 2, 3, 4, 5, 6, L2, L2 + 1, max(1, L2 // 2), max(1, L2 // 3)])
             out.append(call_spatial(T, PS, ds2))
+            # the same in half units: whole East coordinates (even dx), half-unit North coordinates, legs of length k / 2
+            pts2 = [(0, 0)]
+            for _k in range(n - 1):
+                dx, dy = rnd.choice(LEGS_HALF)
+                pts2.append((pts2[-1][0] + dx, pts2[-1][1] + dy))
+            PH = [(p[0], p[1], rnd.randrange(0, 5)) for p in pts2]
+            LH = 2 * sum(int(round(math.hypot(pts2[i + 1][0] - pts2[i][0], pts2[i + 1][1] - pts2[i][1]))) for i in range(n - 1))
+            if LH > 0:
+                out.append(call_spatial(T, PH, rnd.choice([1, 2, 3, 4, 5, 6, LH, LH + 1, max(1, LH // 2), max(1, LH // 3)]), scale=0.5))
             # the number-of-points front ends, both modes (** is temporal, * spatial)
             form = rnd.choice(["npts", "factor", "pow", "mul"])
             mode = 2 if form == "pow" else 1 if form == "mul" else rnd.choice([1, 2])
